@@ -121,6 +121,42 @@ theorem C17_callback_initial (m : Method) (lt : F → F → Bool) (mean : F → 
   rw [indexPairs_eq]
   exact length_pairsLex_of_length _ _ (by simp)
 
+/-- Every merge joins the pair that is closest at that moment, at the reported distance:
+`trace[k]` is the state in which the loop performs its `k`-th merge (there are exactly as many as
+merges); its matrix holds exactly the pairs `i < j` of live entries (`KeysOK`), the clusters
+recorded so far are the first `k` of the result, and the `k`-th recorded cluster `(lhs, rhs, dist)`
+is an entry of that matrix whose distance is minimal.  For a tie-free matrix this entry is the
+unique argmin (second part). -/
+theorem C17_closest [LinearOrder F] (m : Method) (lt : F → F → Bool)
+    (hlt : ∀ a b, lt a b = true ↔ a < b) (mean : F → F → F)
+    (d : List Nat → List Nat → F) (members : List (List Nat)) (sf : State F)
+    (h : cluster m lt mean d members = some sf) :
+    (trace (stepOf m lt mean d) (members.length + 1) (init d members)).length = sf.clusters.length ∧
+    ∀ k sk, (trace (stepOf m lt mean d) (members.length + 1) (init d members))[k]? = some sk →
+      sk.clusters = sf.clusters.take k ∧ KeysOK sk ∧
+      ∃ c, sf.clusters[k]? = some c ∧ ((c.lhs, c.rhs), c.dist) ∈ sk.dm ∧
+        (∀ e ∈ sk.dm, c.dist ≤ e.2) ∧
+        ((∀ e ∈ sk.dm, ∀ e' ∈ sk.dm, e.2 = e'.2 → e = e') →
+          ∀ e ∈ sk.dm, e ≠ ((c.lhs, c.rhs), c.dist) → c.dist < e.2) := by
+  have hi := inv_init d members
+  have hcard : (liveSet (init d members).sets).card < members.length + 1 := by
+    have := hi.card; simp only [init, List.length_nil, Nat.add_zero] at this ⊢; omega
+  have hst := fun s hs hne => stepOf_step m lt mean d s hs hne
+  constructor
+  · have := length_trace lt (stepOf m lt mean d) hst (stepOf_log m lt mean d)
+      (members.length + 1) (init d members) sf hi hcard h
+    simpa [init] using this
+  · intro k sk hk
+    obtain ⟨h1, _, h3, c, h4, h5⟩ := trace_spec lt (stepOf m lt mean d) hst (stepOf_log m lt mean d)
+      (members.length + 1) (init d members) sf hi hcard h k sk hk
+    simp only [init, List.length_nil, Nat.zero_add] at h3 h4
+    obtain ⟨hm, hmin⟩ := closest_min lt hlt sk.dm _ h5
+    refine ⟨h3, h1.keys, c, h4, hm, hmin, ?_⟩
+    intro htie e he hne
+    rcases lt_or_eq_of_le (hmin e he) with hl | heq
+    · exact hl
+    · exact absurd (htie _ hm _ he heq).symm hne
+
 /-! ### non-vacuity -/
 
 /-- four inputs, single linkage over `Nat` distances: the model merges (0,1) at 1, (2,3) at 2 and
